@@ -114,18 +114,20 @@ impl Prop for C09Prop {
         "C09"
     }
     fn rule(&self) -> String {
-        "Well-formed eval_number expressions over + - * / % ^ pow mod, unary minus, abs sgn, floor ceil round trunc (and ⌊⌋ ⌈⌉), superscripts, n!. Exhaustive: every binary operator x (Integer pool ∪ Float pool ∪ NaN/inf ∪ @ with every placeholder)^2, every unary/rounding form x pool ∪ {k+0.5, k+-0.4, k.49999999999999994 : k=-3..3}, n! for n=0..25; random typed trees of depth <=5 beyond. Oracle: typed reference evaluator implementing C09 literally (Integer steps in i128; fits => Integer(exact), variant and value asserted; otherwise Float of the double operation; any Float operand => numeric value of the IEEE operation; rounding functions => numeric value of the rounded integer; Integer exponents outside 0..2^32-1 unspecified). non-trivial = the reference result is a Float/numeric value, or has magnitude >= 2^53, or the input uses a rounding function on a Float; distinct by (input, placeholder).".into()
+        "Well-formed eval_number expressions over + - * / % ^ pow mod, unary minus, abs sgn, floor ceil round trunc (and ⌊⌋ ⌈⌉), superscripts, n!. Exhaustive: every binary operator x (Integer pool ∪ Float pool ∪ NaN/inf ∪ @ with every placeholder)^2, every unary/rounding form x pool ∪ {k+0.5, k+-0.4, k.49999999999999994 : k=-3..3}, n! for n=0..25; long chains of 2..512 operands (i64::MAX+1+0+…+(-2): an intermediate overflow must turn the sum into a Float for good; 1e16+1.0+1.0…); random typed trees of depth <=5 beyond. Oracle: typed reference evaluator implementing C09 literally (Integer steps in i128; fits => Integer(exact), variant and value asserted; otherwise Float of the double operation; any Float operand => numeric value of the IEEE operation; rounding functions => numeric value of the rounded integer; Integer exponents outside 0..2^32-1 unspecified). non-trivial = the reference result is a Float/numeric value, or has magnitude >= 2^53, or the input uses a rounding function on a Float; distinct by (input, placeholder).".into()
     }
     fn subs(&self, tier: Tier) -> Vec<Sub> {
         vec![
             Sub { name: "binary", kind: SubKind::Enum { count: binary_cases().len() as u64 } },
             Sub { name: "unary", kind: SubKind::Enum { count: unary_cases().len() as u64 } },
+            Sub { name: "long", kind: SubKind::Enum { count: super::long::all(true).iter().filter(|x| x.0 == Ev::Num).count() as u64 } },
             Sub { name: "tree", kind: SubKind::Random { cases: tier.pick(600_000, 30_000_000), len: 160 } },
         ]
     }
     fn gen_enum(&self, sub: &str, idx: u64, _tier: Tier) -> Option<Case> {
         let s = match sub {
             "binary" => binary_cases().get(idx as usize)?.clone(),
+            "long" => super::long::all(true).iter().filter(|x| x.0 == Ev::Num).nth(idx as usize)?.1.clone(),
             _ => unary_cases().get(idx as usize)?.clone(),
         };
         Some(Case::new(Ev::Num, s, Val::NI(0)))
